@@ -661,7 +661,15 @@ func vfRunHeartbeat(t *testing.T, spec *vfSpec, res *vfRes) {
 				time.Sleep(time.Duration(r.Intn(300)) * time.Millisecond)
 			}
 		}
-		time.Sleep(time.Second)
+		// no data round trip may still be under way: its RTT sample would land between the two SRTT readings
+		for i := 0; i < 3000; i++ {
+			sa, sb := sim.snap(0), sim.snap(1)
+			if sa.InflightN+sa.PendingN+sb.InflightN+sb.PendingN == 0 {
+				break
+			}
+			time.Sleep(100 * time.Millisecond)
+		}
+		time.Sleep(2*delay + time.Second)
 		rounds := 1 + r.Intn(4)
 		for k := 0; k < rounds; k++ {
 			side := r.Intn(2)
